@@ -29,7 +29,7 @@ RULE = ("random type AST (depth<=3 quick/4 thorough, <=4 fields, 1-3 dims of ext
 ASSUMPTIONS = ["no embedded NUL in strings", "tuples are never placed inside numpy object arrays",
                "nested lists are not used where a zero-length leading dimension must be expressed",
                "scalar arrays created from dimensions have unspecified contents (shape only compared)"]
-FORMS = ["plain", "plain", "plain", "kwargs", "nd_c", "nd_f", "nd_strided", "nd_obj", "xobj_same", "xobj_other",
+FORMS = ["plain", "plain", "plain", "kwargs", "nd_c", "nd_f", "nd_strided", "nd_swapped", "nd_obj", "xobj_same", "xobj_other", "xobj_other_class",
          "nested_xobj", "dims", "capacity"]
 
 _ctx = []
@@ -55,8 +55,12 @@ def to_input(t, mv, rng, form, cache, env, top=True):
         return d
     if k == "ar":
         it = t["it"]
-        if form in ("nd_c", "nd_f", "nd_strided") and it["k"] == "sc":
-            return as_ndarray(t, mv, layout={"nd_c": "c", "nd_f": "f", "nd_strided": "strided"}[form])
+        if form in ("nd_c", "nd_f", "nd_strided", "nd_swapped") and it["k"] == "sc":
+            a = as_ndarray(t, mv, layout={"nd_c": "c", "nd_f": "f", "nd_strided": "strided", "nd_swapped": rng.choice(["c", "f"])}[form])
+            if form == "nd_swapped":
+                # same values, non-native byte order (data read from a big-endian file, say)
+                a = a.astype(a.dtype.newbyteorder())
+            return a
         if (form == "nd_obj" and it["k"] != "sc" and tuple_free(it)) or not list_ok(mv.shape):
             if it["k"] == "sc":
                 return as_ndarray(t, mv)
@@ -77,6 +81,18 @@ def to_input(t, mv, rng, form, cache, env, top=True):
         return (m["n"], inner)
 
 
+def other_class_source(t, mv, rng, cache, env):
+    """An xobject array of another class (other axis order, some extents static instead of dynamic) holding mv."""
+    nd = len(t["dims"])
+    order2 = list(range(nd))
+    rng.shuffle(order2)
+    t2 = dict(t, n=t["n"] + "alt", ord=order2, dims=[s_ if rng.random() < 0.5 else d for s_, d in zip(mv.shape, t["dims"])])
+    cls2 = build(t2, cache)
+    arg = cls2(plain(t2, mv, rng, np_scalars=True), _buffer=rng.choice([env.buf, None]))
+    env.repoison()
+    return arg
+
+
 def run_case(w, rng):
     depth = rng.choice([1, 2, 2, 3, 3]) if w.tier == "quick" else rng.choice([1, 2, 3, 3, 4])
     tg = TypeGen(rng, max_depth=depth)
@@ -88,11 +104,15 @@ def run_case(w, rng):
         t = tg.g_ar(depth)
         while not is_static(t["it"]):
             t = tg.g_ar(depth)
-    elif form.startswith("nd_"):
-        t = tg.root(allow=("ar", "ar", "st"))
+    elif form.startswith("nd_") or form == "xobj_other_class":
+        t = tg.root(allow=("ar", "ar", "st") if form != "xobj_other_class" else ("ar",))
     else:
         t = tg.root()
     cache = {}
+    if rng.random() < 0.1:
+        from xv.props.common import use_decoy
+        use_decoy(t, rng)
+        w.count("same_named_decoy_classes_used_before")
     cls = build(t, cache)
     vg = ValGen(rng)
     mv = vg.value(t)
@@ -126,6 +146,13 @@ def _one(w, rng, t, cls, cache, mv, form, env):
                 mb = env.buf if form == "xobj_same" else None
                 arg = build(m, cache)(plain(m, mv[1], rng), _buffer=mb)
                 env.repoison()
+        elif form == "xobj_other_class" and t["k"] == "ar":
+            # an xobject array of ANOTHER class with the same item type and extents (other axis order, static
+            # instead of dynamic extents): the value is taken over index by index
+            arg = other_class_source(t, mv, rng, cache, env)
+        elif form == "xobj_other_class":
+            arg = to_input(t, mv, rng, "plain", cache, env)
+            env.repoison()
         elif form in ("xobj_same", "xobj_other"):
             src_buf = env.buf if form == "xobj_same" else rng.choice([None, "ctx2"])
             a = plain(t, mv, rng, np_scalars=True)
